@@ -1,7 +1,10 @@
 import Pendulum.Drv.Util
 import Pendulum.Model.ParseAll
 /-! request handler for property C17:
-`ptotal <rs|py> <exact><strict><day_first><year_first>:<tz seconds|none> <encoded string> <dateutil>`
+`ptotal <rs|py> <exact><strict><day_first><year_first>[n]:<tz seconds|c<seconds>|none|naive> <encoded string> <dateutil>`
+(`none` = no `tz=` argument, `naive` = `tz=None`, `<seconds>` = a FixedTimezone object, `c<seconds>` = a number of hours or a
+`datetime.timezone`, which resolve to the cached per-offset FixedTimezone; the optional fifth flag `n` = the call was made without `now=`: the harness
+has replaced today's date in the reply by the fixed `now` of the model, so the flag changes nothing here)
 where `<dateutil>` is what `dateutil.parser.parse` answers for that string and those flags (computed by the harness, the
 model treats dateutil as a parameter): `-` (not consulted: strict), `ok:y:m:d:h:mi:s:us:<off|none>` or `err:<ExceptionName>`.
 Reply: `ok DateTime y m d h mi s us off` | `ok Date y m d` | `ok Time h mi s us` | `ok Duration years months us` |
@@ -39,10 +42,14 @@ def flag (c : Char) : Bool := c == '1'
 def parseOpts (w : String) : Option Options :=
   match w.splitOn ":" with
   | [fl, tz] =>
-    match fl.toList with
-    | [e, s, d, y] =>
-      let tzv : Option (Option Int) := if tz == "none" then some none else tz.toInt?.map some
+    let tzv : Option TzOpt :=
+      if tz == "none" then some .default else if tz == "naive" then some .naive
+      else if tz.startsWith "c" then (tz.drop 1).toInt?.map .shared else tz.toInt?.map .fixed
+    let mk (e s d y : Char) : Option Options :=
       tzv.map fun t => { exact := flag e, strict := flag s, dayFirst := flag d, yearFirst := flag y, tz := t, now := (2001, 2, 3) }
+    match fl.toList with
+    | [e, s, d, y] => mk e s d y
+    | [e, s, d, y, 'n'] => mk e s d y
     | _ => none
   | _ => none
 
